@@ -177,7 +177,7 @@ def special_position_cases(part, seed):
                 # half of Cl-C#C-Cl' ... use H-C#C-H with distinct elements per half: asymmetric unit = (C, H) or (C, Cl)
                 for syms, ds in ((["C", "H"], (0.60, 1.66)), (["C", "Cl"], (0.60, 2.24))):
                     frac = np.array([c0 + d * u for d in ds]) @ Mi
-                    if xtal.image_separation(ops, frac, M) < 0.9:
+                    if not (xtal.image_separation(ops, frac, M) >= 0.9):
                         part.skip("special-position molecule crowded by its images")
                         continue
                     case = {"kind": "special", "setting": list(key), "centre": list(centre), "cell": ci, "axis": oi, "symbols": syms}
@@ -285,7 +285,7 @@ def trig_initial(spec):
         for i in range(len(cand)):
             cand[i] = cand[i] + (k * (i + 1)) * (np.array([0.0, 0.0, 0.0173]) if special[i] else np.array([0.0137, -0.0219, 0.0311]))
         candR = (cand @ M) @ np.linalg.inv(MRref)
-        if xtal.image_separation(hops, cand) > 0.02 and xtal.image_separation(rops, candR) > 0.02:
+        if not (xtal.image_separation(hops, cand) <= 0.02) and not (xtal.image_separation(rops, candR) <= 0.02):
             frac = cand
             break
     else:
@@ -341,7 +341,7 @@ def trig_worker(part, spec, max_len):
                 e2 = np.abs(np.array(ps["angles"]) - np.array(p0["angles"])).max()
                 e3 = np.abs(ps["pos"] - p0["pos"]).max()
                 part.dev("roundtrip_abs", max(e1, e2, e3))
-                if max(e1, e2, e3) > 1e-9 or ps["codes"] != p0["codes"]:
+                if not (max(e1, e2, e3) <= 1e-9) or ps["codes"] != p0["codes"]:
                     part.fail("trig-roundtrip:%s" % spec["asym"], "switching %s from %s does not restore cell/coordinates (dev %g)" % (word, spec["start"], max(e1, e2, e3)), case)
             else:
                 # the target cell must have the metric of the other setting: volume ratio 3 (H) : 1 (R)
